@@ -89,15 +89,35 @@ package cmpp
 //@   ensures [C03 short] len(d) < 12 ==> err != nil
 //@   ensures [C02 fields] len(d) >= 12 ==> err == nil && int(h.TotalLength) == dbe32(take(content(d), 4)) && int(h.CommandID) == dbe32(take(drop(content(d), 4), 4)) && int(h.SequenceID) == dbe32(take(drop(content(d), 8), 4))
 
-// The decimal string form: fmt.Sprintf / fmt.Sscanf with a seven-field format are outside the verifier's models, so
-// these two contracts are ASSUMED (`trusted`) and exercised by the bounded stand-in TestValidator_MSGID on every run
-// of the C17 check. The bit-level functions above are proved for all 2^64 ids.
+// The decimal string form. Sprintf with a constant format of %0Nd verbs is modelled (A-FMT2: N decimal digits for an
+// in-range value); Sscanf with such a format is a partial function of its input (A-SCAN: scanok_2_2_2_2_2_7_5(s), and
+// scan_2_2_2_2_2_7_5(s, i) for the i-th field). That the scanner inverts the printer on in-range fields is the
+// hypothesis of the lemma below and is exercised on every run of the C17 check by the bounded stand-in TestValidator_MSGID.
 //@ func MsgID2String
+//@   mode bv
+//@   theory T0
 //@   props C17
-//@   trusted
+//@   ensures [C17 zero] u == 0 ==> result == eps
+//@   ensures [C17 digits] u != 0 ==> result == cat(dec2(int(u >> 60)), dec2(int((u >> 55) & 31)), dec2(int((u >> 50) & 31)), dec2(int((u >> 44) & 63)), dec2(int((u >> 38) & 63)), decw(7, int((u >> 16) & 4194303)), decw(5, int(u & 65535)))
+//@   ensures [C17 width] u != 0 ==> len(result) == 22
+
 //@ func MsgIDString2Uint64
+//@   mode bv
+//@   theory T0
 //@   props C17
-//@   trusted
+//@   ensures [C17 refused] !scanok_2_2_2_2_2_7_5(s) ==> result == 0
+//@   ensures [C17 parsed] scanok_2_2_2_2_2_7_5(s) && bv64(scan_2_2_2_2_2_7_5(s, 0)) < 16 && bv64(scan_2_2_2_2_2_7_5(s, 1)) < 32 && bv64(scan_2_2_2_2_2_7_5(s, 2)) < 32 && bv64(scan_2_2_2_2_2_7_5(s, 3)) < 64 && bv64(scan_2_2_2_2_2_7_5(s, 4)) < 64 && bv64(scan_2_2_2_2_2_7_5(s, 5)) < 4194304 && bv64(scan_2_2_2_2_2_7_5(s, 6)) < 65536 ==> result == (bv64(scan_2_2_2_2_2_7_5(s, 0)) << 60 | bv64(scan_2_2_2_2_2_7_5(s, 1)) << 55 | bv64(scan_2_2_2_2_2_7_5(s, 2)) << 50 | bv64(scan_2_2_2_2_2_7_5(s, 3)) << 44 | bv64(scan_2_2_2_2_2_7_5(s, 4)) << 38 | bv64(scan_2_2_2_2_2_7_5(s, 5)) << 16 | bv64(scan_2_2_2_2_2_7_5(s, 6)))
+
+// The string form round-trips: for a non-zero id u, the parser applied to the printer's output is u. The two function
+// contracts above give "printer output = the 22 digits of u's fields" and "parser result = the fields scanned, recombined";
+// the hypothesis is A-SCAN's inverse law at those 22 digits (every field of a 64-bit id is in range of its %0Nd verb:
+// 15, 31, 31, 63, 63 < 100, 4194303 < 10^7, 65535 < 10^5); the conclusion is the antecedent and the value of [C17 parsed].
+//@ lemma msgid_string_roundtrip(u bv64)
+//@   props C17
+//@   requires u != 0
+//@   requires scanok_2_2_2_2_2_7_5(cat(dec2(int(u >> 60)), dec2(int((u >> 55) & 31)), dec2(int((u >> 50) & 31)), dec2(int((u >> 44) & 63)), dec2(int((u >> 38) & 63)), decw(7, int((u >> 16) & 4194303)), decw(5, int(u & 65535)))) && scan_2_2_2_2_2_7_5(cat(dec2(int(u >> 60)), dec2(int((u >> 55) & 31)), dec2(int((u >> 50) & 31)), dec2(int((u >> 44) & 63)), dec2(int((u >> 38) & 63)), decw(7, int((u >> 16) & 4194303)), decw(5, int(u & 65535))), 0) == int(u >> 60) && scan_2_2_2_2_2_7_5(cat(dec2(int(u >> 60)), dec2(int((u >> 55) & 31)), dec2(int((u >> 50) & 31)), dec2(int((u >> 44) & 63)), dec2(int((u >> 38) & 63)), decw(7, int((u >> 16) & 4194303)), decw(5, int(u & 65535))), 1) == int((u >> 55) & 31) && scan_2_2_2_2_2_7_5(cat(dec2(int(u >> 60)), dec2(int((u >> 55) & 31)), dec2(int((u >> 50) & 31)), dec2(int((u >> 44) & 63)), dec2(int((u >> 38) & 63)), decw(7, int((u >> 16) & 4194303)), decw(5, int(u & 65535))), 2) == int((u >> 50) & 31) && scan_2_2_2_2_2_7_5(cat(dec2(int(u >> 60)), dec2(int((u >> 55) & 31)), dec2(int((u >> 50) & 31)), dec2(int((u >> 44) & 63)), dec2(int((u >> 38) & 63)), decw(7, int((u >> 16) & 4194303)), decw(5, int(u & 65535))), 3) == int((u >> 44) & 63) && scan_2_2_2_2_2_7_5(cat(dec2(int(u >> 60)), dec2(int((u >> 55) & 31)), dec2(int((u >> 50) & 31)), dec2(int((u >> 44) & 63)), dec2(int((u >> 38) & 63)), decw(7, int((u >> 16) & 4194303)), decw(5, int(u & 65535))), 4) == int((u >> 38) & 63) && scan_2_2_2_2_2_7_5(cat(dec2(int(u >> 60)), dec2(int((u >> 55) & 31)), dec2(int((u >> 50) & 31)), dec2(int((u >> 44) & 63)), dec2(int((u >> 38) & 63)), decw(7, int((u >> 16) & 4194303)), decw(5, int(u & 65535))), 5) == int((u >> 16) & 4194303) && scan_2_2_2_2_2_7_5(cat(dec2(int(u >> 60)), dec2(int((u >> 55) & 31)), dec2(int((u >> 50) & 31)), dec2(int((u >> 44) & 63)), dec2(int((u >> 38) & 63)), decw(7, int((u >> 16) & 4194303)), decw(5, int(u & 65535))), 6) == int(u & 65535)
+//@   ensures [C17 inrange] bv64(scan_2_2_2_2_2_7_5(cat(dec2(int(u >> 60)), dec2(int((u >> 55) & 31)), dec2(int((u >> 50) & 31)), dec2(int((u >> 44) & 63)), dec2(int((u >> 38) & 63)), decw(7, int((u >> 16) & 4194303)), decw(5, int(u & 65535))), 0)) < 16 && bv64(scan_2_2_2_2_2_7_5(cat(dec2(int(u >> 60)), dec2(int((u >> 55) & 31)), dec2(int((u >> 50) & 31)), dec2(int((u >> 44) & 63)), dec2(int((u >> 38) & 63)), decw(7, int((u >> 16) & 4194303)), decw(5, int(u & 65535))), 1)) < 32 && bv64(scan_2_2_2_2_2_7_5(cat(dec2(int(u >> 60)), dec2(int((u >> 55) & 31)), dec2(int((u >> 50) & 31)), dec2(int((u >> 44) & 63)), dec2(int((u >> 38) & 63)), decw(7, int((u >> 16) & 4194303)), decw(5, int(u & 65535))), 2)) < 32 && bv64(scan_2_2_2_2_2_7_5(cat(dec2(int(u >> 60)), dec2(int((u >> 55) & 31)), dec2(int((u >> 50) & 31)), dec2(int((u >> 44) & 63)), dec2(int((u >> 38) & 63)), decw(7, int((u >> 16) & 4194303)), decw(5, int(u & 65535))), 3)) < 64 && bv64(scan_2_2_2_2_2_7_5(cat(dec2(int(u >> 60)), dec2(int((u >> 55) & 31)), dec2(int((u >> 50) & 31)), dec2(int((u >> 44) & 63)), dec2(int((u >> 38) & 63)), decw(7, int((u >> 16) & 4194303)), decw(5, int(u & 65535))), 4)) < 64 && bv64(scan_2_2_2_2_2_7_5(cat(dec2(int(u >> 60)), dec2(int((u >> 55) & 31)), dec2(int((u >> 50) & 31)), dec2(int((u >> 44) & 63)), dec2(int((u >> 38) & 63)), decw(7, int((u >> 16) & 4194303)), decw(5, int(u & 65535))), 5)) < 4194304 && bv64(scan_2_2_2_2_2_7_5(cat(dec2(int(u >> 60)), dec2(int((u >> 55) & 31)), dec2(int((u >> 50) & 31)), dec2(int((u >> 44) & 63)), dec2(int((u >> 38) & 63)), decw(7, int((u >> 16) & 4194303)), decw(5, int(u & 65535))), 6)) < 65536
+//@   ensures [C17 roundtrip] (bv64(scan_2_2_2_2_2_7_5(cat(dec2(int(u >> 60)), dec2(int((u >> 55) & 31)), dec2(int((u >> 50) & 31)), dec2(int((u >> 44) & 63)), dec2(int((u >> 38) & 63)), decw(7, int((u >> 16) & 4194303)), decw(5, int(u & 65535))), 0)) << 60 | bv64(scan_2_2_2_2_2_7_5(cat(dec2(int(u >> 60)), dec2(int((u >> 55) & 31)), dec2(int((u >> 50) & 31)), dec2(int((u >> 44) & 63)), dec2(int((u >> 38) & 63)), decw(7, int((u >> 16) & 4194303)), decw(5, int(u & 65535))), 1)) << 55 | bv64(scan_2_2_2_2_2_7_5(cat(dec2(int(u >> 60)), dec2(int((u >> 55) & 31)), dec2(int((u >> 50) & 31)), dec2(int((u >> 44) & 63)), dec2(int((u >> 38) & 63)), decw(7, int((u >> 16) & 4194303)), decw(5, int(u & 65535))), 2)) << 50 | bv64(scan_2_2_2_2_2_7_5(cat(dec2(int(u >> 60)), dec2(int((u >> 55) & 31)), dec2(int((u >> 50) & 31)), dec2(int((u >> 44) & 63)), dec2(int((u >> 38) & 63)), decw(7, int((u >> 16) & 4194303)), decw(5, int(u & 65535))), 3)) << 44 | bv64(scan_2_2_2_2_2_7_5(cat(dec2(int(u >> 60)), dec2(int((u >> 55) & 31)), dec2(int((u >> 50) & 31)), dec2(int((u >> 44) & 63)), dec2(int((u >> 38) & 63)), decw(7, int((u >> 16) & 4194303)), decw(5, int(u & 65535))), 4)) << 38 | bv64(scan_2_2_2_2_2_7_5(cat(dec2(int(u >> 60)), dec2(int((u >> 55) & 31)), dec2(int((u >> 50) & 31)), dec2(int((u >> 44) & 63)), dec2(int((u >> 38) & 63)), decw(7, int((u >> 16) & 4194303)), decw(5, int(u & 65535))), 5)) << 16 | bv64(scan_2_2_2_2_2_7_5(cat(dec2(int(u >> 60)), dec2(int((u >> 55) & 31)), dec2(int((u >> 50) & 31)), dec2(int((u >> 44) & 63)), dec2(int((u >> 38) & 63)), decw(7, int((u >> 16) & 4194303)), decw(5, int(u & 65535))), 6))) == u
 
 // Utf8ToUcs2 goes through x/text's transform.NewReader + io.ReadAll: assumed, exercised by the XTEXT stand-in (which
 // also compares it with the two proved helpers Utf8ToUcs2Back / Utf8ToUcs2Pooled and the UCS-2 codec).
